@@ -75,7 +75,9 @@ def PARAM_LOOPS(header, body):
 
 UNIT = Unit(
     name="U-SCOPE",
-    properties=["C05"],
+    properties=["C05", "C16"],
+    # the let-annotation clause (the annotation is lowered by the import-checking lowering) is C16's; everything else is C05's
+    clause_scope={"C16": {"only": ["let_annotation_import_checked("]}, "C05": {"except": ["let_annotation_import_checked("]}},
     rules=["attrs", "iter_map_collect"],
     describe="name resolution's scoping: ResolveLocalEnv (new / enter_scope / add) and the six scoping-relevant arms of "
              "NameResolution::resolve_expr (block, match, closure, let, if, while) and six pass-through arms (unary, binary, projection, tuple, array, go) against the rule `leak`: a `let` leaves exactly its "
@@ -147,8 +149,11 @@ UNIT = Unit(
             obligation="a closure body is a scope: parameters and inner bindings are not visible after the closure"),
         arm("resolve_let", "ast::Expr::ELet {\n                pat,\n                annotation,\n                value,\n                astptr,\n            } => {",
             "pat: &ast::Pat, annotation: &Option<ast::TypeExpr>, value: &Box<ast::Expr>, astptr: &ast::MySyntaxNodePtr",
-            "env_names(final(env).0@) == env_names(old(env).0@) + leak(**value) + pat_names(*pat)",
-            rewrites=[("annotation.as_ref().map(|t| t.into())", "conv_annotation(annotation)")],
+            "env_names(final(env).0@) == env_names(old(env).0@) + leak(**value) + pat_names(*pat),\n"
+            "        let_annotation_import_checked(final(hir_table).expr_of(r))",
+            rewrites=[("annotation.as_ref().map(|t| t.into())", "conv_annotation(annotation)", "*"),
+                      (re.compile(r"annotation\.as_ref\(\)\.map\(\|t\| \{\s*self\.lower_type_expr\(t, &HashSet::new\(\), ctx\.current_package, ctx\.imports\)\s*\}\)"),
+                       "(match annotation { Some(t) => Some(self.lower_type_expr(t, &empty_tparams(), ctx.current_package, ctx.imports)), None => None })", "*")],
             obligation="a let makes exactly its pattern's variables visible to the code after it (the value is resolved BEFORE the pattern binds)"),
         arm("resolve_if", "ast::Expr::EIf {\n                cond,\n                then_branch,\n                else_branch,\n                astptr,\n            } => {",
             "cond: &Box<ast::Expr>, then_branch: &Box<ast::Expr>, else_branch: &Box<ast::Expr>, astptr: &ast::MySyntaxNodePtr",
